@@ -81,6 +81,8 @@ def gen(tier, rng):
     from .. import initgen
     for sc in initgen.signed_parts_scripts(rng.fork("signed"), thorough):
         yield sc
+    # "delivered byte-identical" over a long session: rotation messages are lost, the retransmitted ones must lead both ends to the same keys
+    yield nodegen.long_session_script(r, "node-rotation-loss", 740, drop_at=(120, 121), replay_age=(2,), expect_from=360)
     if thorough:
         yield nodegen.plain_script(r, "node-plain-switch", [True, "only", True, False], mode="switch", dev="tap", seconds=12)
 
